@@ -1819,6 +1819,10 @@ class Interp:
                             pass
                     if meth in ("startswith", "endswith") and len(args) == 1 and isinstance(args[0], Const):
                         return [(Const(getattr(recv.v, meth)(args[0].v)), s)]
+                    # a tuple of alternatives: s.startswith(("a", "b"))
+                    if meth in ("startswith", "endswith") and len(args) == 1 and isinstance(args[0], ListV) and not args[0].open and all(isinstance(x, Const) and isinstance(x.v, str) for x in args[0].items) \
+                            and isinstance(recv.v, str):
+                        return [(Const(getattr(recv.v, meth)(tuple(x.v for x in args[0].items))), s)]
                     if meth in ("split", "rsplit", "partition", "rpartition") and len(args) <= 2 and all(isinstance(a, Const) for a in args) and isinstance(recv.v, str):
                         try:
                             return [(ListV(tuple(Const(x) for x in getattr(recv.v, meth)(*[a.v for a in args]))), s)]
